@@ -87,8 +87,13 @@ def make_vcf(D, cases, name, integer=False):
     """cases: list of (xr vector, masked); XA is derived as the ALT part of XR; len(xr) - 1 ALTs are listed"""
     ref, all_alts = l1_strings()
     lines = list(HEADER)
-    for i, (xr, masked) in enumerate(cases):
+    for i, case in enumerate(cases):
+        xr, masked = case[0], case[1]
+        nofield = len(case) > 2 and case[2]
         alts = all_alts[: len(xr) - 1]
+        if nofield:
+            lines.append("chr1\t9\tr%d\t%s\t%s\t.\t.\t%s" % (i, ref, ",".join(alts) if alts else ".", "REFMASKED" if masked else "."))
+            continue
         if integer:
             info = "XRI=%s;XAI=%s" % (",".join(str(int(x)) for x in xr), ",".join(str(int(x)) for x in xr[1:]) if len(xr) > 1 else ".")
         else:
@@ -231,13 +236,16 @@ def check_output(r, payload, prog, out, cases, flt, tag, integer, tagp):
     if len(recs) != len(cases):
         r.violation("prog-records|%s" % prog, "%d records for %d input records (%s)" % (len(recs), len(cases), tagp), payload)
         return
-    for rec, (xr, masked) in zip(recs, cases):
+    for rec, case in zip(recs, cases):
+        xr, masked = case[0], case[1]
+        nofield = len(case) > 2 and case[2]
         r.evaluations += 1
         if flt is not None or tag:
             r.nontrivial += 1
         alts = all_alts[: len(xr) - 1]
-        kept, mask, freqs = expected_prior(ref, alts, xr, xr[1:], masked, flt, tag)
-        tagd = "%s|XR=%s|masked=%d" % (tagp, xr, masked)
+        # a record that carries no value for the filter field keeps all its alleles; the filter still applies to every other record of the file
+        kept, mask, freqs = expected_prior(ref, alts, xr, xr[1:], masked, None if nofield else flt, tag)
+        tagd = "%s|XR=%s|masked=%d%s" % (tagp, xr, masked, "|record without the field" if nofield else "")
         if rec["ref"] != ref or rec["alt"] != kept:
             r.violation("prog-alts|%s" % prog, "ALT %r, alleles passing the filter %r (%s)" % (rec["alt"], kept, tagd), payload)
             continue
@@ -317,6 +325,24 @@ def job_prog(job):
             continue
         env.quiet()
         check_output(r, payload, prog, out, cases, None if flt is None else tuple(flt), tag, False, tagp)
+    if fstr:
+        # the same records interleaved with records that carry no value for the filter field (first record, then every seventh)
+        gcases = []
+        for i, c in enumerate(cases):
+            if i % 7 == 0:
+                gcases.append((c[0], c[1], True))
+            gcases.append(c)
+        hv2 = make_vcf(D, gcases, "in_gap.vcf")
+        extra = ([] if prog == "call-pedigree" else ["--inbreeding", "0.3"]) + ["--filter-input-haplotypes", fstr] + (D.pedigree_files() if prog == "call-pedigree" else [])
+        tagp = "%s|filter=%s|freq=None|field-less records interleaved" % (prog, fstr)
+        try:
+            out = stddata.run(D.call_args(prog, hv2, report=["AFP", "AFPRIOR"], extra=extra))
+            env.quiet()
+            check_output(r, payload, prog, out, gcases, tuple(flt), None, False, tagp)
+        except Exception as e:  # noqa
+            e = synth.root_cause(e)
+            r.violation("prog-exception|%s|%s" % (prog, type(e).__name__), "run aborted: %s: %s (%s)" % (type(e).__name__, str(e)[:200], tagp), payload)
+            env.quiet()
     r.sample({"program": prog, "filter": fstr, "records": len(cases)})
     return r
 
